@@ -142,12 +142,6 @@ func (m *modeler) applyField(f *field, v reflect.Value, cv *cval, pc polCtx) {
 		if absent {
 			return
 		}
-		if f.kind == kSliceStruct && replaces(pc) {
-			if m.unmodelled != nil {
-				m.unmodelled[f] = true
-			}
-			return
-		}
 		v.Set(m.mergeList(f, v, cv, pc.pol))
 	case kArrayPrim:
 		if absent {
@@ -155,6 +149,15 @@ func (m *modeler) applyField(f *field, v reflect.Value, cv *cval, pc polCtx) {
 		}
 		for i := 0; i < v.Len() && i < len(cv.list); i++ {
 			v.Index(i).Set(cv.list[i].want)
+		}
+	case kArrayComp:
+		if absent {
+			return
+		}
+		// every element is a value of its own: what the setting at position i
+		// mentions is merged into element i, the rest of the element stays
+		for i := 0; i < v.Len() && i < len(cv.list); i++ {
+			m.applyField(f.elem, v.Index(i), cv.list[i], pc)
 		}
 	case kConfig:
 		if absent {
